@@ -654,5 +654,57 @@ func c09Subscription(c *run.Ctx) int {
 			}
 		}
 	}
+	// conditions (literal) on the selections INSIDE the event: applied every time an event is resolved for the subscriber,
+	// on fields, inline fragments and fragment spreads alike
+	lits := []struct {
+		dir   string
+		stays bool
+	}{{`@include(if: true)`, true}, {`@skip(if: true)`, false}, {`@skip(if: false)`, true}, {`@include(if: false)`, false},
+		{`@skip(if: false) @include(if: true)`, true}, {`@include(if: true) @skip(if: true)`, false}, {`@include(if: false) @skip(if: false)`, false}}
+	for li, lt := range lits {
+		for form := 0; form < 2; form++ {
+			var clock int64
+			lg := &subLog{cleanups: map[int][]int64{}, clock: &clock}
+			ro := &subRootObj{log: lg}
+			root := ggql.NewRoot(ro)
+			if err := root.ParseString(subSDL); err != nil {
+				return done
+			}
+			var cur int64 = 1
+			ro.pending = &hSub{sid: 0, log: lg, failOn: map[int]bool{}, field: "listen", current: &cur}
+			text := "subscription S { listen(topic: \"a\") { id ...F " + lt.dir + " ... on Event " + lt.dir + " { tag } n " + lt.dir + " } }\nfragment F on Event { inner { v } }"
+			if form == 1 {
+				text = "fragment F on Event { inner { v } }\nsubscription S { listen(topic: \"a\") { ... on Event { ...F " + lt.dir + " } id n " + lt.dir + " ... " + lt.dir + " { tag } } }"
+			}
+			var res map[string]interface{}
+			pv, _ := run.Protect(func() {
+				res = root.ResolveString(text, "", nil)
+				for k := 0; k < 2; k++ {
+					_, _ = root.AddEvent("a", &subEvent{uid: int64(k + 1), id: fmt.Sprintf("e%d", k+1), n: 5, tag: "t", v: 7})
+				}
+			})
+			done++
+			c.Eval(fmt.Sprintf("subscription-event|%d|%d", li, form), true)
+			c.Bucket("kind", "subscription-event-selection")
+			want := `{"id":"e1"}`
+			if lt.stays {
+				want = `{"id":"e1","inner":{"v":7},"n":5,"tag":"t"}`
+			}
+			diag := ""
+			switch {
+			case pv != nil:
+				diag = fmt.Sprintf("panic: %v", pv)
+			case res["errors"] != nil:
+				diag = fmt.Sprint("subscription request rejected: ", res["errors"])
+			case len(lg.deliveries) != 2:
+				diag = fmt.Sprintf("%d deliveries, expected 2", len(lg.deliveries))
+			case lg.deliveries[0].Msg != want || lg.deliveries[1].Msg != strings.Replace(want, "e1", "e2", 1):
+				diag = fmt.Sprintf("the subscriber received %s and %s, expected %s (and the same for e2)", lg.deliveries[0].Msg, lg.deliveries[1].Msg, want)
+			}
+			if diag != "" {
+				c.Violation("c09-subscription-root", map[string]interface{}{"document": text, "expected_present": lt.stays, "diag": diag})
+			}
+		}
+	}
 	return done
 }
